@@ -31,7 +31,7 @@ CHECKS = {
              'public classes from Expressible values, the corpus, and wild API-built ones whose named reason outside Expressible '
              'must be a listed finding. Correspondence: the Lean DBML renderer produces the same text and the Lean parser model '
              'reads it back to the same content. Theorems flags_document_roundtrip_partial (WHOLE DOCUMENTS: enums, tables whose columns carry settings / '
-             'default / note / properties, each table possibly under a comment, standalone references, sticky notes - same database back; built on a '
+             'default / note / properties, each table possibly under a comment, references written inline in a column or standalone, table groups, sticky notes - same database back; built on a '
              'generic notion of element form, parseDoc_elems), flags_refs_roundtrip_partial (any number of tables whose columns carry settings, a note and '
              'properties, followed by any number of different standalone references: same database back), flags_table_roundtrip_partial (one table whose columns carry any subset of pk / increment / '
              'unique / not null, possibly an integer default, a one-line note and - option on - any number of properties; an instance of form_roundtrip, which '
